@@ -472,7 +472,12 @@ class FpGen:
     def tree(self, depth, theme, family):
         e = self.node(depth - 1 if family == "compare" else depth, theme, family)
         if family == "compare":
-            e = self.join(self.rng.choice(CMPS + CMPS + ["&"]), e, theme, depth)
+            sym = self.rng.choice(CMPS + CMPS + CMPS + ["&"])
+            if sym in CMPS and self.rng.random() < 0.6:
+                c = threshold(self.rng, e, self.value(theme))
+                e = Infix(sym, e, c) if self.rng.random() < 0.55 else Infix(sym, c, e)
+            else:
+                e = self.join(sym, e, theme, depth)
         return e
 
 
@@ -484,12 +489,30 @@ CHAIN_PAIRS = [(a, b) for a in "+-" for b in "+-"] + [(a, b) for a in "*/" for b
               [("<", "+"), ("==", "*"), ("+", "&")]
 
 
+def threshold(rng, inner, default):
+    """a comparison is only sensitive to rounding at its boundary: compare with a value the operand actually takes
+    (the inner expression evaluated level by level at one of its elements) or with a float next to it"""
+    if rng.random() < 0.25:
+        return default
+    try:
+        o = elem(inner, rng.randrange(3), {})
+    except CannotJudge:
+        return default
+    if o == "stop" or o[0] != "y" or type(o[1]) not in (int, float) or (type(o[1]) is float and not math.isfinite(o[1])):
+        return default
+    v = o[1]
+    k = rng.random()
+    if type(v) is float and k < 0.4:
+        return math.nextafter(v, math.inf if k < 0.2 else -math.inf)
+    return v
+
+
 def chain_cases(rng, fg, reps):
     """two operators applied one after the other to one stream, a scalar at each level, in the four written
     forms ((p o1 c1) o2 c2, c2 o2 (p o1 c1), (c1 o1 p) o2 c2, c2 o2 (c1 o1 p)), over every theme"""
     out = []
-    for _ in range(reps):
-        for o1, o2 in CHAIN_PAIRS:
+    for rep in range(2 * reps):
+        for o1, o2 in (CHAIN_PAIRS if rep % 2 == 0 else CHAIN_PAIRS[:16]):     # the 16 pairs over + - * / twice
             for form in ("ll", "lr", "rl", "rr"):
                 for theme in FP_THEMES:
                     if (o1 in ("<<", ">>") or o2 in ("<<", ">>")) and theme not in ("ints", "zeros", "near2p53"):
@@ -502,6 +525,8 @@ def chain_cases(rng, fg, reps):
                     if o1 in SMALL_RHS and form[0] == "r" or o2 in SMALL_RHS and form[1] == "r" or o2 == "&" and form[1] == "r":
                         continue
                     inner = Infix(o1, p, c1) if form[0] == "l" else Infix(o1, c1, p)
+                    if o2 in CMPS:
+                        c2 = threshold(rng, inner, c2)
                     e = Infix(o2, inner, c2) if form[1] == "l" else Infix(o2, c2, inner)
                     out.append(Case(e, [("next", 0)] * (leaf_len(p) + 2 if leaf_len(p) < 20 else 8), "fp-chain",
                                     {"theme": theme, "family": "%s then %s" % (o1, o2), "form": form}))
@@ -608,7 +633,7 @@ def check(run):
 
     # rounding-sensitive strata (generated last: the cases above are the same as before for a given seed)
     fg = FpGen(rng)
-    fp_cases = chain_cases(rng, fg, 6 if thorough else 1) + fp_tree_cases(rng, fg, 20000 if thorough else 900)
+    fp_cases = chain_cases(rng, fg, 6 if thorough else 1) + fp_tree_cases(rng, fg, 20000 if thorough else 800)
 
     # operand streams of the non-literal leaves: a fresh instance of the leaf, run on its own
     leaves = {}
